@@ -642,8 +642,9 @@ example : (eval genEnv (.check { validate := some (.one (some 0, "never")), defa
 example : (eval genEnv (.check { validate := some (.one (some 0, "raises_value")), default := some (.const (.int 7)) })
     (.int 3)) = (.ok (.int 7), [0]) := by decide
 -- the validator after the failing one does not run
-example : (eval genEnv (.check { validate := some (.many [(some 0, "raises_value"), (some 1, "always")]),
-    default := some (.const (.int 7)) }) (.int 3)) = (.ok (.int 7), [0]) := by decide
+example : (eval genEnv (.check {
+      validate := some (.many [(some 0, "raises_value"), (some 1, "always")])
+      default := some (.const (.int 7)) }) (.int 3)) = (.ok (.int 7), [0]) := by decide
 example : (eval genEnv (.check { type_ := some (.one "int"), default := some (.t [.str "a"]) })
     (.dict [(.str "a", .int 1)])).1 = .ok (.int 1) := by decide
 -- without a default a raising validator is a CheckError
